@@ -198,7 +198,7 @@ PROPS['C17'] = Prop('C17', harness='c17', entries=['c17', 'c17k'], props_file='t
                                  'keep-alive: the theorems are about the deadline bookkeeping over a virtual clock; timer accuracy, gorilla, the kernel are outside the model (real-time scenarios check detection within wait + 750 ms)',
                                  'a Stop racing the instant the back-off delay elapses (both select arms ready) is not forced by the harness'],
                     rule='label sequences over {start, abrupt connection loss (TCP reset), dial fails, dial succeeds, stop} on the real ws client against a raw loopback server with parked dials: a corpus (first retry succeeds, four failed retries, stopped-and-restarted client, stop during a dial that fails / succeeds) plus seeded random sequences (quick 10, thorough 150), compared with the model (handler trace, number of dials, final phase); 4 real-time keep-alive scenarios (peer stops answering pings; healthy idle connection; server side: silent client, pinging client) judged by a monitor',
-                    design_ref='5 C17', monitor_prefixes=['C17'], confirm_slow=True, harness_timeout=3000, spec_entries=[])
+                    design_ref='5 C17', monitor_prefixes=['C17'], confirm_slow=True, harness_timeout=3000, spec_entries=['c17'])
 MANIFEST_TEXT['C17'] = dict(
     text='Coq theorems on the reconnection machine: any number of failed dials keeps the loop going; back-off doubled (plus the random range) for the first repeat attempts then constant; a restarted client has no stale abort signal (repaired F7); once idle only Start connects; Stop during a dial ends the loop when the dial fails -- and the refutation witness of "never reconnects after Stop" when that dial succeeds (open finding F26); keep-alive deadline bookkeeping (silent peer detected by last activity + wait, healthy peer never dropped). The machine is compared with the real client against a raw loopback server with parked dials; keep-alive runs in real time under a monitor.',
     note='Trusted: Coq kernel, extraction, harness; gorilla/websocket, timers and TCP are exercised, not verified. Partial as stated in DESIGN.md: the runtime half of the property (timers firing, the network noticing a reset) is observed, not proved.',
